@@ -61,7 +61,21 @@ VVcf(ev) ==
           /\ Len(got) = Cardinality(wantGroups) + SumSeq([r \in DOMAIN recs |-> IF recs[r][4] < 0 THEN Len(recs[r][3]) ELSE 0]),
           "vcf:grouped-by-phase-set")
 
-Verdict(ev) == CASE ev[1] = "alt" -> VAlt(ev) [] ev[1] = "lift" -> VLift(ev) [] ev[1] = "inc" -> VInc(ev)
+(* ["inccds", R, V, exons, cds, isCollection, outcome <<"v", newCdsLoc | EMPTY, cdsChars>>] : the CDS of a coding
+   transcript after incorporate_variants is the edited image of the reference CDS (claimed when every variant lies wholly
+   inside one block or wholly outside all blocks, of the exons and of the CDS) *)
+VIncCdsRaw(ev) ==
+  LET R == ev[2] V == ev[3] ex == ev[4] l == ev[5] coll == ev[6] o == ev[7] IN
+  IF ~Premise(ex, V) \/ ~Premise(l, V) THEN "ok"
+  ELSE IF SemLiftPos(ex, V) = {} THEN "ok"                       \* the whole transcript is deleted: judged by "inc"
+  ELSE IF SemLiftPos(l, V) = {} THEN Ok(Rejected(o) \/ (IsVal(o) /\ PosSet(o[2]) = {}), "incorporate-cds:deleted-is-empty")
+  ELSE IF ~IsVal(o) THEN (IF coll /\ ShiftingNonLast(V) /\ Rejected(o) THEN "collection-lift:sequential-shift" ELSE "incorporate-cds:returns")
+  ELSE IF PosSet(o[2]) # SemLiftPos(l, V) \/ IsEmptyLoc(o[2]) \/ St(o[2]) # St(l) \/ o[3] # Extract(SemLiftLoc(l, V), Alt(R, V)) THEN
+       (IF coll /\ ShiftingNonLast(V) THEN "collection-lift:sequential-shift" ELSE "incorporate-cds:cds-is-edited")
+  ELSE "ok"
+VIncCds(ev) == Keyed(VIncCdsRaw(ev), ev[6], ev[3], ev[7])
+
+Verdict(ev) == CASE ev[1] = "inccds" -> VIncCds(ev) [] ev[1] = "alt" -> VAlt(ev) [] ev[1] = "lift" -> VLift(ev) [] ev[1] = "inc" -> VInc(ev)
                  [] ev[1] = "vcf" -> VVcf(ev) [] OTHER -> "unknown-op"
 Bad == {i \in DOMAIN Trace : Verdict(Trace[i]) # "ok"}
 ASSUME \A i \in Bad : PrintT(<<"BAD", i, Verdict(Trace[i])>>)
